@@ -36,8 +36,8 @@ scalar_leaf = st.one_of(cell_leaf, var_leaf.filter(lambda n: n[1] != 'v_list'), 
 def trees():
     def extend(ch):
         return st.one_of(
-            st.tuples(st.just('call'), st.sampled_from(['REC', 'REC', 'ID', 'COUNT', 'ISBLANK', 'T']), st.lists(ch, min_size=1, max_size=4)).map(
-                lambda t: ['call', t[1], t[2][:1] if t[1] in ('ID', 'ISBLANK', 'T') else t[2]]),
+            st.tuples(st.just('call'), st.sampled_from(['REC', 'REC', 'ID', 'COUNT', 'ISBLANK', 'T', 'ERAISE', 'SUM']), st.lists(ch, min_size=1, max_size=4)).map(
+                lambda t: ['call', t[1], t[2][:1] if t[1] in ('ID', 'ISBLANK', 'T', 'ERAISE') else (t[2][:2] + [['var', 'v_err']] if t[1] == 'SUM' else t[2])]),
             st.tuples(st.just('arr'), st.lists(ch, min_size=1, max_size=3)).map(list),
             st.tuples(st.just('paren'), ch).map(list),
             st.tuples(st.just('bin'), st.just('='), scalar_leaf, scalar_leaf).map(list),
@@ -58,7 +58,7 @@ def case_s(draw):
     return {'tree': t, 'listeners': draw(listeners)}
 
 
-VARS = {'v_a': 41, 'v_b': 'bee', 'v_list': [3, 4], 'v_zero': 0}
+VARS = {'v_a': 41, 'v_b': 'bee', 'v_list': [3, 4], 'v_zero': 0, 'v_err': Err('#NUM!')}
 
 
 def final_value(templates_by_listener, tag, default):
@@ -98,9 +98,9 @@ def expected(tree, L):
         if k == 'var':
             name = n[1]
             events.append(('callVariable', name))
-            base = {'TRUE': True, 'FALSE': False, 'NULL': None}.get(name, VARS.get(name, Err('#NAME?')))
+            base = {'TRUE': True, 'FALSE': False, 'NULL': None}.get(name, VARS.get(name, 'unbound'))
             v = final_value(L['callVariable'], 'var:' + name, base)
-            if isinstance(v, Err):
+            if v == 'unbound' and base == 'unbound':
                 raise NameAbort()
             return v
         if k == 'arr':
@@ -109,6 +109,10 @@ def expected(tree, L):
             l = ev(n[2])
             r = ev(n[3])
             from ..ref import order as ro
+            if isinstance(l, Err):
+                return l
+            if isinstance(r, Err):
+                return r
             if isinstance(l, list) or isinstance(r, list):
                 raise Unspecified('list compare')
             try:
@@ -126,8 +130,14 @@ def expected(tree, L):
                 base = len(flat(args))
             elif name == 'ISBLANK':
                 base = args[0] is None
+            elif name == 'ERAISE':
+                base = Err('#REF!')          # the host function raises the error object
+            elif name == 'SUM':
+                errs = [x for x in flat(args) if isinstance(x, Err)]
+                # the aggregate raises the first error among its items; without one (a listener replaced it) it adds the numbers
+                base = errs[0] if errs else sum((9000 + x[1]) if isinstance(x, tuple) else x for x in flat(args) if isinstance(x, (int, float, tuple)))
             else:   # T
-                base = args[0] if isinstance(args[0], str) else ''
+                base = args[0] if isinstance(args[0], (str, Err)) else ''
             events.append(('callFunction', name, args))
             return final_value(L['callFunction'], 'fn:' + name, base)
         raise ValueError(n)
@@ -153,9 +163,12 @@ def flat(x):
 
 
 def resolve(v, rec_ids):
-    """replace ('rec', k) placeholders by the recorder's k-th return value"""
+    """replace ('rec', k) placeholders by the recorder's k-th return value and reference errors by the library's error objects"""
     if isinstance(v, tuple) and v and v[0] == 'rec':
         return 9000 + v[1]
+    if isinstance(v, Err):
+        from ..env import errors
+        return errors().from_message(v.code)
     if isinstance(v, list):
         return [resolve(x, rec_ids) for x in v]
     return v
@@ -169,7 +182,8 @@ def check(case):
         raise Skip('reference-unspecified')
     P = hot().Parser()
     for k, v in VARS.items():
-        P.set_variable(k, v)
+        if k != 'v_err':
+            P.set_variable(k, v)
     log = []
     rec_calls = []
 
@@ -178,6 +192,12 @@ def check(case):
         return 9000 + len(rec_calls) - 1
     P.set_function('REC', rec)
     P.set_function('ID', lambda x: x)
+    from ..env import errors as _errors
+
+    def eraise(*a):
+        raise _errors().REF
+    P.set_function('ERAISE', eraise)
+    P.set_variable('v_err', _errors().NUM)
     problems = []
 
     def mk(kind, idx, tpl):
@@ -230,12 +250,12 @@ def check(case):
         ok = g[:3] == w[:3] and (same_value(list(g[3:]), list(w[3:])))
         if not ok:
             raise Violation(d + 'listener call %d is %r, expected %r' % (i, g, w), enc(list(g)), enc(list(w)))
-    want_value = resolve(want_value, None)
     if isinstance(want_value, Err):
         if r['error'] != want_value.code:
             raise Violation(d + '-> %r, expected %s' % (r['error'] or r['result'], want_value.code), r['error'] or enc(r['result']), want_value.code)
-        return
-    if r['error'] is not None or not same_value(r['result'], want_value):
+        want_value = None
+    want_value = resolve(want_value, None)
+    if (r['error'] is not None and want_value is not None) or not same_value(r['result'], want_value):
         raise Violation(d + '-> %r, expected %r (last non-None value handed to the setter wins)' % (r['error'] or r['result'], want_value), r['error'] or enc(r['result']), enc(want_value))
     # the recorder saw the reference values
     want_rec = [resolve(e[2], None) for e in want_events if e[0] == 'callFunction' and e[1] == 'REC']
@@ -255,6 +275,8 @@ def classes(case):
                 out.add('range-anti-diagonal')
             if '$' in n[1] + n[2]:
                 out.add('range-absolute')
+        if n[0] == 'call' and n[1] in ('ERAISE', 'SUM'):
+            out.add('call-raises-error')
         if n[0] == 'cell':
             if n[1] != n[1].upper():
                 out.add('cell-lower')
@@ -298,9 +320,9 @@ def key(case):
 LAWS = [
     Law('events', check, strategy=case_s(), classes=classes, key=key, quick=5000, thorough=200000, shards=(16, 16),
         required=('range-reversed', 'range-anti-diagonal', 'range-absolute', 'cell-lower', 'cell-absolute', 'beyond-xfd-or-1048576', 'multi-listener',
-                  'falsy-final:callCellValue', 'falsy-final:callRangeValue', 'falsy-final:callVariable', 'falsy-final:callFunction', 'none-after-value', 'events>=3-of-2-kinds'),
+                  'falsy-final:callCellValue', 'falsy-final:callRangeValue', 'falsy-final:callVariable', 'falsy-final:callFunction', 'none-after-value', 'events>=3-of-2-kinds', 'call-raises-error'),
         nontrivial=lambda c: bool(set(classes(c)) & set(['events>=3-of-2-kinds', 'range-reversed'])) or any(x.startswith('falsy-final') for x in classes(c)),
-        rule='generated tree of cell / range / variable references, recording and built-in calls, array literals and = comparisons; 0-3 listeners per event kind, each handing 0-3 values (None, a tag derived from the reference, or a constant incl. 0, FALSE, "", a list) to the setter: '
+        rule='generated tree of cell / range / variable references, recording and built-in calls (incl. a host function and an aggregate that report an error by raising it), array literals and = comparisons; 0-3 listeners per event kind, each handing 0-3 values (None, a tag derived from the reference, or a constant incl. 0, FALSE, "", a list) to the setter: '
              'the listener call log equals the post-order walk (each listener once per event, subscription order) with canonical payloads (upper-cased label, zero-based row/column, markers; normalised range corners whose labels re-parse to their coordinates); '
              'call arguments and the formula value follow the "last non-None value wins, else blank / registered value" rule; non-trivial = at least 3 events of 2 kinds, a range with unordered corners, or a falsy final setter value'),
 ]
